@@ -99,6 +99,13 @@ type clientType struct {
 	// lastOK: the client's last message for this type was sent having seen every response, was not a
 	// rejection, and nothing was sent to it since
 	lastOK bool
+	// pending: names the client asked for that no response has covered since (a response covers the
+	// names on the server's record when it is sent)
+	pending map[string]bool
+	// ever: names the client has wanted at some point on this stream. Only first-time names are tracked
+	// as pending: re-adding a name dropped while a response was in flight is a case the state-of-the-world
+	// protocol itself cannot resolve (the server ignores the stale request by rule), so nothing is demanded.
+	ever map[string]bool
 }
 
 type world struct {
@@ -111,10 +118,11 @@ type world struct {
 	cl         [3]clientType
 	conformant bool
 	ntypes     int
+	active     []int // the types this exploration drives
 }
 
-func newWorld(delta bool) *world {
-	w := &world{delta: delta, conformant: true, ntypes: 2}
+func newWorld(delta bool, active ...int) *world {
+	w := &world{delta: delta, conformant: true, ntypes: 2, active: active}
 	w.proxy = &model.Proxy{ID: "sidecar~1.1.1.1~a.ns~ns.svc.cluster.local", WatchedResources: map[string]*model.WatchedResource{}}
 	if delta {
 		w.ntypes = 3
@@ -127,6 +135,13 @@ func newWorld(delta bool) *world {
 	xds.VerifSetProxy(w.con, w.proxy)
 	for i := range w.cl {
 		w.cl[i].want = map[string]bool{}
+		w.cl[i].pending = map[string]bool{}
+		w.cl[i].ever = map[string]bool{}
+	}
+	if len(w.active) == 0 {
+		for t := 0; t < w.ntypes; t++ {
+			w.active = append(w.active, t)
+		}
 	}
 	return w
 }
@@ -164,6 +179,11 @@ func (w *world) send(t int) {
 	}
 	w.sentNonces[t] = append(w.sentNonces[t], nonce)
 	w.cl[t].lastOK = false
+	if r := w.wr(t); r != nil {
+		for n := range r.ResourceNames {
+			delete(w.cl[t].pending, n)
+		}
+	}
 }
 
 func (w *world) nonceFor(t int, sym string) string {
@@ -345,6 +365,10 @@ func (w *world) apply(e event) (v *verdict) {
 		}
 	}
 	// ---- client model update
+	preWant := map[string]bool{}
+	for n := range c.want {
+		preWant[n] = true
+	}
 	c.sentAny = true
 	if w.delta {
 		if !e.Err {
@@ -372,10 +396,31 @@ func (w *world) apply(e event) (v *verdict) {
 			c.want[n] = true
 		}
 	}
+	// names newly wanted wait for a response that covers them; names no longer wanted wait for nothing
+	if !e.Err {
+		for n := range c.want {
+			if !preWant[n] && !c.ever[n] {
+				c.pending[n] = true
+			}
+			c.ever[n] = true
+		}
+		for n := range c.pending {
+			if !c.want[n] {
+				delete(c.pending, n)
+			}
+		}
+	}
 	caughtUp := c.seen == len(w.sentNonces[t])
 	c.lastOK = conf && !e.Err && caughtUp && (must != "silent" || why == "ACK")
 	if respond && !e.NoSend {
 		w.send(t) // sets lastOK=false: a response is now unseen
+	}
+	// ---- every name a conformant client asked for has been covered by a response
+	if w.conformant && c.lastOK && !isWildcardType(t) && c.seen == len(w.sentNonces[t]) {
+		if p := sorted(c.pending); len(p) > 0 {
+			return &verdict{fmt.Sprintf("subscription-never-answered:%s:%s", map[bool]string{false: "sotw", true: "delta"}[w.delta], typeShort[t]),
+				fmt.Sprintf("after %v the conformant client has seen every response and is still waiting for %v: no response sent since it asked covered them", e, p)}
+		}
 	}
 	// ---- subscription record on conformant paths
 	if w.conformant && c.lastOK {
@@ -424,7 +469,7 @@ func (w *world) canon() string {
 			fmt.Fprintf(&b, "wr{%v wc=%v sent=%s acked=%s always=%v err=%v}", names, r.Wildcard, rel(r.NonceSent), rel(r.NonceAcked), r.AlwaysRespond, r.LastError != "")
 		}
 		unseen := len(w.sentNonces[t]) - c.seen
-		fmt.Fprintf(&b, " cl{want=%v wc=%v seenAny=%v unseen=%d sentAny=%v ok=%v};", sorted(c.want), c.wildcard, c.seen > 0, unseen, c.sentAny, c.lastOK)
+		fmt.Fprintf(&b, " cl{want=%v wc=%v seenAny=%v unseen=%d sentAny=%v ok=%v pend=%v ever=%v};", sorted(c.want), c.wildcard, c.seen > 0, unseen, c.sentAny, c.lastOK, sorted(c.pending), sorted(c.ever))
 	}
 	return b.String()
 }
@@ -445,7 +490,7 @@ func subsets(names []string) [][]string {
 
 func (w *world) enabled(thorough bool) []event {
 	var out []event
-	for t := 0; t < w.ntypes; t++ {
+	for _, t := range w.active {
 		c := w.cl[t]
 		unseen := len(w.sentNonces[t]) - c.seen
 		if unseen > 0 {
@@ -498,8 +543,11 @@ func (w *world) enabled(thorough bool) []event {
 	return out
 }
 
+// activeTypes is set per exploration (a package variable so that replay files only carry events).
+var activeTypes []int
+
 func replay(delta bool, hist []event) (*world, *verdict) {
-	w := newWorld(delta)
+	w := newWorld(delta, activeTypes...)
 	for _, e := range hist {
 		if v := w.apply(e); v != nil {
 			return w, v
@@ -548,10 +596,20 @@ func ackLoop(delta bool, hist []event) *verdict {
 	return &verdict{"request-response-loop", fmt.Sprintf("after %v a client that only ACKs keeps receiving responses", hist)}
 }
 
-func runBFS(t *testing.T, env *engine.Env, res *engine.Result, delta bool, depth int) {
+func runBFS(t *testing.T, env *engine.Env, res *engine.Result, delta bool, depth int, types ...int) {
 	mode := map[bool]string{false: "sotw", true: "delta"}[delta]
+	activeTypes = types
+	var tn []string
+	for _, x := range types {
+		tn = append(tn, typeShort[x])
+	}
+	if len(types) > 0 {
+		mode += "-" + strings.Join(tn, "+")
+	} else {
+		mode += "-joint"
+	}
 	seen := map[string]bool{}
-	w0 := newWorld(delta)
+	w0 := newWorld(delta, types...)
 	seen[w0.canon()] = true
 	frontier := [][]event{nil}
 	res.States++
@@ -571,7 +629,7 @@ func runBFS(t *testing.T, env *engine.Env, res *engine.Result, delta bool, depth
 				res.Evaluations++
 				res.Traces++
 				if v != nil {
-					res.Violate(v.key, v.desc+" after "+fmt.Sprint(hist), map[string]any{"delta": delta, "events": h2})
+					res.Violate(v.key, v.desc+" after "+fmt.Sprint(hist), map[string]any{"delta": delta, "events": h2, "types": types})
 					res.Outcome("violation:" + v.key)
 					continue
 				}
@@ -586,7 +644,7 @@ func runBFS(t *testing.T, env *engine.Env, res *engine.Result, delta bool, depth
 				}
 				res.Outcome(fmt.Sprintf("%s conformant=%v", mode, w2.conformant))
 				if v := ackLoop(delta, h2); v != nil {
-					res.Violate(v.key, v.desc, map[string]any{"delta": delta, "events": h2})
+					res.Violate(v.key, v.desc, map[string]any{"delta": delta, "events": h2, "types": types})
 				}
 				next = append(next, h2)
 				if res.States%400 == 3 {
@@ -616,10 +674,12 @@ func TestC04Stage1(t *testing.T) {
 		var rp struct {
 			Delta  bool    `json:"delta"`
 			Events []event `json:"events"`
+			Types  []int   `json:"types"`
 		}
 		if err := engine.ReadReplay(env.Replay, &rp); err != nil {
 			t.Fatal(err)
 		}
+		activeTypes = rp.Types
 		_, v := replay(rp.Delta, rp.Events)
 		if v == nil {
 			v = ackLoop(rp.Delta, rp.Events)
@@ -629,18 +689,27 @@ func TestC04Stage1(t *testing.T) {
 		}
 		return
 	}
-	if env.Of > 1 && env.Shard > 1 {
-		return
+	// one exploration per shard: the two types jointly (they interact through the warming marker) to a
+	// small depth, and each type alone much deeper (to closure of the abstract state space in thorough)
+	type plan struct {
+		delta bool
+		depth int
+		types []int
 	}
-	depthS, depthD := 5, 4
+	plans := []plan{
+		{false, 4, nil}, {false, 8, []int{1}}, {false, 8, []int{0}},
+		{true, 3, nil}, {true, 5, []int{1}}, {true, 5, []int{0}}, {true, 5, []int{2}},
+	}
 	if env.Thorough() {
-		depthS, depthD = 12, 7
+		plans = []plan{
+			{false, 7, nil}, {false, 14, []int{1}}, {false, 14, []int{0}},
+			{true, 5, nil}, {true, 8, []int{1}}, {true, 8, []int{0}}, {true, 8, []int{2}},
+		}
 	}
-	// shard 0: sotw, shard 1: delta (or both when unsharded)
-	if env.Of <= 1 || env.Shard == 0 {
-		runBFS(t, env, res, false, depthS)
-	}
-	if env.Of <= 1 || env.Shard == 1 {
-		runBFS(t, env, res, true, depthD)
+	for i, p := range plans {
+		if env.Of > 1 && i%env.Of != env.Shard {
+			continue
+		}
+		runBFS(t, env, res, p.delta, p.depth, p.types...)
 	}
 }
